@@ -10,6 +10,7 @@ import (
 	"os/exec"
 	"path/filepath"
 	"reflect"
+	"sync"
 
 	"github.com/markkurossi/mpc/sha2pc"
 
@@ -131,7 +132,7 @@ func init() {
 	vrt.Register(&vrt.Prop{
 		ID: "C18", Level: "exploration",
 		Rule: "kinds of case: (A) protocol run on a curve (weighted P-224:P-256:P-384:P-521 = 8:8:1:1) with boundary/random (a,b): digest == SHA-256(a xor b); the same run repeated with 4 of the 32 encode->decode subsets of the five persisted objects under identical per-round randomness: digest and round-3 bytes must be identical; fixed encoded sizes per curve; decode(encode(m)) deep-equals m. " +
-			"(B) every round in its own OS process exchanging only files. (C) rejection: messages/sessions of another session id or curve are rejected by the consuming round/decoder; every truncation (all prefixes of the small encodings, sampled for round 3) is rejected; byte/bit mutations and extensions never panic a decoder nor, when accepted, the consuming round. Distinct = (curve, inputs, subset) / hash of the mutated bytes.",
+			"(B) every round in its own OS process exchanging only files; 2-4 sessions alive in one process advanced in a PRNG interleaving (round 3 optionally in parallel goroutines) with the round-3 message re-encoded just before use. (C) rejection: messages/sessions of another session id or curve are rejected by the consuming round/decoder; every truncation (all prefixes of the small encodings, sampled for round 3) is rejected; byte/bit mutations and extensions never panic a decoder nor, when accepted, the consuming round. Distinct = (curve, inputs, subset) / hash of the mutated bytes.",
 		Assumptions: []string{"crypto/sha256 is the reference for the digest"},
 		NumCases: func(t string) int {
 			if t == "thorough" {
@@ -166,6 +167,8 @@ func runC18(cs *vrt.Case) {
 	case 1:
 		if cs.Idx%12 == 1 {
 			c18Processes(cs, r, c18Curves[(cs.Idx/12)%2])
+		} else if cs.Idx%12 == 7 || cs.Idx%12 == 10 {
+			c18Interleaved(cs, r, c18Curves[(cs.Idx/12)%2])
 		} else {
 			c18Resume(cs, r, cv)
 		}
@@ -463,6 +466,162 @@ func c18Reject(cs *vrt.Case, r *vrt.Rng, cv elliptic.Curve) {
 }
 
 // c18Processes runs every round in its own OS process, exchanging files only.
+// c18Interleaved keeps 2-4 sessions alive in one process and advances them in
+// a PRNG-chosen interleaving (a server garbling for several clients). Message
+// and session objects are held as Go values across the other sessions' rounds;
+// each round-3 message is encoded when it is produced and again just before
+// it is consumed: the two encodings must be identical, and every session must
+// end with SHA-256(a xor b) of its own inputs. Half of the cases run the
+// round-3 calls of all sessions in parallel goroutines.
+func c18Interleaved(cs *vrt.Case, r *vrt.Rng, cv elliptic.Curve) {
+	n := r.Range(2, 4)
+	type sess struct {
+		a, b   [32]byte
+		seed   uint64
+		m1     sha2pc.Round1Payload
+		gs     *sha2pc.GarblerSession
+		m2     sha2pc.Round2Payload
+		es     *sha2pc.EvaluatorSession
+		m3     sha2pc.Round3Payload
+		r3b    []byte
+		step   int
+		digest [32]byte
+	}
+	ss := make([]*sess, n)
+	for i := range ss {
+		ss[i] = &sess{a: c18Input(r), b: c18Input(r), seed: r.U64()}
+	}
+	parallel3 := r.Bool()
+	desc := map[string]any{"kind": "interleaved sessions", "curve": cv.Params().Name, "sessions": n, "parallel_round3": parallel3}
+	cs.SetSample(desc)
+	var order []int
+	fail := func(i int, stage string, err error) {
+		cs.Violate("C18|interleaved-error|"+stage, fmt.Sprintf("session %d of %d interleaved sessions failed in %s: %v", i, n, stage, err), map[string]any{"case": desc, "order": fmt.Sprint(order)})
+	}
+	advance := func(i int) bool {
+		x := ss[i]
+		var err error
+		switch x.step {
+		case 0:
+			if x.m1, x.gs, err = sha2pc.GarblerRound1(vrt.Derive(x.seed, "g1", 0), cv); err != nil {
+				fail(i, "GarblerRound1", err)
+				return false
+			}
+		case 1:
+			if x.m2, x.es, err = sha2pc.EvaluatorRound2(vrt.Derive(x.seed, "e2", 0), cv, x.m1, x.b); err != nil {
+				fail(i, "EvaluatorRound2", err)
+				return false
+			}
+		case 2:
+			if x.m3, err = sha2pc.GarblerRound3(vrt.Derive(x.seed, "g3", 0), cv, x.gs, x.a, x.m2); err != nil {
+				fail(i, "GarblerRound3", err)
+				return false
+			}
+			if x.r3b, err = sha2pc.EncodeRound3(x.m3); err != nil {
+				fail(i, "EncodeRound3", err)
+				return false
+			}
+		case 3:
+			again, err := sha2pc.EncodeRound3(x.m3)
+			if err != nil {
+				fail(i, "EncodeRound3(again)", err)
+				return false
+			}
+			if !bytes.Equal(again, x.r3b) {
+				cs.Violate("C18|interleaved-message-changed", fmt.Sprintf("the round-3 message of session %d encodes differently after other sessions advanced (first difference at byte %d of %d)", i, firstDiff(again, x.r3b), len(x.r3b)), map[string]any{"case": desc, "order": fmt.Sprint(order)})
+				return false
+			}
+			if x.digest, err = sha2pc.EvaluatorRound4(cv, x.es, x.m3); err != nil {
+				fail(i, "EvaluatorRound4", err)
+				return false
+			}
+		}
+		x.step++
+		return true
+	}
+	pan := vrt.Guard(func() {
+		for {
+			var live []int
+			for i, x := range ss {
+				if x.step < 4 {
+					live = append(live, i)
+				}
+			}
+			if len(live) == 0 {
+				return
+			}
+			// all sessions at round 3: optionally in parallel
+			all3 := parallel3 && len(live) == n
+			for _, i := range live {
+				all3 = all3 && ss[i].step == 2
+			}
+			if all3 {
+				var wg sync.WaitGroup
+				oks := make([]bool, n)
+				for _, i := range live {
+					wg.Add(1)
+					go func(i int) { defer wg.Done(); oks[i] = advance(i) }(i)
+				}
+				wg.Wait()
+				order = append(order, -3)
+				for _, i := range live {
+					if !oks[i] {
+						return
+					}
+				}
+				continue
+			}
+			i := live[r.Intn(len(live))]
+			if parallel3 && ss[i].step == 2 {
+				// hold this one until the others reach round 3
+				waiting := false
+				for _, j := range live {
+					if ss[j].step < 2 {
+						i, waiting = j, true
+						break
+					}
+				}
+				_ = waiting
+			}
+			order = append(order, i)
+			if !advance(i) {
+				return
+			}
+		}
+	})
+	if pan != nil {
+		if pan.InMPC {
+			cs.Violate("C18|interleaved-panic|"+pan.Frame, "interleaved sessions panicked: "+pan.Value, map[string]any{"case": desc, "stack": pan.Stack})
+		} else {
+			cs.Inconc("harness panic: " + pan.Value + "\n" + pan.Stack)
+		}
+		return
+	}
+	for i, x := range ss {
+		if x.step < 4 {
+			return // a violation was reported
+		}
+		cs.Evals++
+		if want := sha256.Sum256(sliceOf(xor32(x.a, x.b))); x.digest != want {
+			cs.Violate("C18|interleaved-digest", fmt.Sprintf("session %d of %d interleaved sessions: digest %x, SHA-256(a xor b) is %x", i, n, x.digest, want), map[string]any{"case": desc, "order": fmt.Sprint(order)})
+			return
+		}
+	}
+	cs.Key("interleaved", cv.Params().Name, fmt.Sprint(order), fmt.Sprint(ss[0].seed))
+	cs.Count("interleaved_session_groups", 1)
+}
+
+func sliceOf(a [32]byte) []byte { return a[:] }
+
+func firstDiff(a, b []byte) int {
+	for i := 0; i < len(a) && i < len(b); i++ {
+		if a[i] != b[i] {
+			return i
+		}
+	}
+	return min(len(a), len(b))
+}
+
 func c18Processes(cs *vrt.Case, r *vrt.Rng, cv elliptic.Curve) {
 	a, b := c18Input(r), c18Input(r)
 	seed := r.U64()
